@@ -578,7 +578,7 @@ def _pol_obs_term(c, st):
     return Raw(f"(@OFw {O} {tm(opt(st[0]))} {st[1]})")
 
 
-def impl_entity(c):
+def impl_entity(c, wall=120.0):
     from happysimulator.components.rate_limiter.rate_limited_entity import RateLimitedEntity
     from happysimulator.core.entity import Entity
     from happysimulator.core.event import Event
@@ -616,7 +616,9 @@ def impl_entity(c):
     sim = Simulation(entities=[rl, sink], end_time=Instant(c["end"]))
     for i, t in enumerate(c["arrivals"]):
         sim.schedule(Event(time=Instant(t), event_type="req", target=rl, context={"id": i}))
-    _summary, verdict = run_bounded(sim, max_events_per_instant=300, max_events=20000, wall_s=20.0)
+    _summary, verdict = run_bounded(sim, max_events_per_instant=300, max_events=20000, wall_s=wall)
+    if verdict == "wall-timeout" and wall < 900:      # starved machine, not a livelock (those are caught by event counts)
+        return impl_entity(c, 900.0)
     st = rl.stats
     return dict(trace=trace[:400], steps=len(trace), sink=got, verdict=verdict, queue_depth=rl.queue_depth,
                 stats=[st.received, st.forwarded, st.queued, st.dropped])
@@ -718,7 +720,7 @@ def entity_family(inst):
 
 
 # --------------------------------------------------------------------------- Inductor and NullRateLimiter in real Simulations
-def impl_inductor(c):
+def impl_inductor(c, wall=120.0):
     from happysimulator.components.rate_limiter.inductor import Inductor
     from happysimulator.core.entity import Entity
     from happysimulator.core.event import Event
@@ -761,7 +763,9 @@ def impl_inductor(c):
     sim = Simulation(entities=[rl, sink], end_time=Instant(c["end"]))
     for i, t in enumerate(c["arrivals"]):
         sim.schedule(Event(time=Instant(t), event_type="req", target=rl, context={"id": i}))
-    _summary, verdict = run_bounded(sim, max_events_per_instant=300, max_events=20000, wall_s=20.0)
+    _summary, verdict = run_bounded(sim, max_events_per_instant=300, max_events=20000, wall_s=wall)
+    if verdict == "wall-timeout" and wall < 900:
+        return impl_inductor(c, 900.0)
     st = rl.stats
     return dict(trace=trace[:400], steps=len(trace), sink=got, verdict=verdict, queue_depth=rl.queue_depth,
                 stats=[st.received, st.forwarded, st.queued, st.dropped])
@@ -801,7 +805,7 @@ def oracle_inductor(c, obs):
     return fs
 
 
-def impl_null(c):
+def impl_null(c, wall=120.0):
     from happysimulator.components.rate_limiter.null import NullRateLimiter
     from happysimulator.core.entity import Entity
     from happysimulator.core.event import Event
@@ -827,7 +831,9 @@ def impl_null(c):
     sim = Simulation(entities=[rl, sink], end_time=Instant(c["end"]))
     for i, t in enumerate(c["arrivals"]):
         sim.schedule(Event(time=Instant(t), event_type="req", target=rl, context={"id": i}))
-    _summary, verdict = run_bounded(sim, max_events_per_instant=300, max_events=20000, wall_s=20.0)
+    _summary, verdict = run_bounded(sim, max_events_per_instant=300, max_events=20000, wall_s=wall)
+    if verdict == "wall-timeout" and wall < 900:
+        return impl_null(c, 900.0)
     return dict(trace=trace, sink=got, verdict=verdict)
 
 
@@ -852,7 +858,7 @@ def gen_null(rng):
 
 
 # --------------------------------------------------------------------------- DistributedRateLimiter (generator handler; one step per resumption)
-def impl_dist(c):
+def impl_dist(c, wall=120.0):
     from happysimulator.components.datastore import KVStore
     from happysimulator.components.rate_limiter.distributed import DistributedRateLimiter
     from happysimulator.core.entity import Entity
@@ -908,7 +914,9 @@ def impl_dist(c):
     sim = Simulation(entities=[*lims, store, sink], end_time=Instant(c["end"]))
     for i, (t, li) in enumerate(c["arrivals"]):
         sim.schedule(Event(time=Instant(t), event_type="req", target=lims[li], context={"id": i, "lim": li}))
-    _summary, verdict = run_bounded(sim, max_events_per_instant=2000, max_events=50000, wall_s=20.0)
+    _summary, verdict = run_bounded(sim, max_events_per_instant=2000, max_events=50000, wall_s=wall)
+    if verdict == "wall-timeout" and wall < 900:
+        return impl_dist(c, 900.0)
     _st, ls = snapshot()
     return dict(trace=trace[:600], steps=len(trace), sink=got, verdict=verdict, lims=ls)
 
